@@ -890,8 +890,8 @@ func (m *Memory) FindLatest(
 				if am.IsActiveTick(r.Time.MTimeTracked[idx]) {
 					continue records
 				}
-				// if has previously been inactive
-				if older != nil && !am.IsActiveTick(older.Time.MTimeTracked[idx]) {
+				// if has previously been inactive (or nothing is known about it)
+				if older == nil || !am.IsActiveTick(older.Time.MTimeTracked[idx]) {
 					continue records
 				}
 			}
